@@ -47,6 +47,10 @@ FIXED = {
     "default.mixed(readout_prob=p)": ("C28", "default.mixed(readout_prob=p) raised TypeError on every execution"),
     "qp.math.take handles a negative axis": ("C48", "qp.math.take(x, idx, axis<0) under autograd indexed axis 0 (wrong gradients)"),
     "qp.ctrl of a quantum function forwards": ("C11", "qp.ctrl(callable, work_wire_type='zeroed') emitted 'borrowed' Controlled ops, contradicting the declared resources"),
+    "generate_shift_rule treats frequencies": ("C35", "generate_shift_rule treated equal-gap frequency sets with an offset, e.g. (2, 3), as equidistant and returned wrong derivatives"),
+    "ZOmega division by an integer": ("C16", "ZOmega / int used float division (inexact above 2**53)"),
+    "executor submit passes keyword": ("C65", "mp_pool submit(fn, *args, **kwargs) raised TypeError (kwargs passed to Pool.apply)"),
+    "executor starmap fallback": ("C65", "starmap on cf_threadpool / cf_procpool: kwargs handed to list(), single-parameter functions called once with all items"),
     "IntegerComparator(geq=False) matrix": ("C10", "IntegerComparator(value > 2**n, geq=False).matrix() raised ValueError"),
 }
 
@@ -69,7 +73,14 @@ KNOWN = [
     ("C48", "interface-error", {"fn": "sort", "iface": "torch"}, "qp.math.sort(torch_tensor, axis=k) raises TypeError (wrapper drops axis)"),
     ("C48", "gradient-error", {"fn": "norm", "iface": "autograd"}, "qp.math.norm(x, axis=k) cannot be differentiated with autograd"),
     ("C40", "unexpected-exception", {"evolve_param_base": True}, "bind_new_parameters raises IndexError on qp.evolve with a parametrised base"),
+    ("C48", "gradient-error", {"fn": "fidelity.param", "iface": "torch"}, "qp.math.fidelity with a trainable torch state and a numpy second state raises TypeError (second state not converted to torch)"),
+    ("C48", "gradient-error", {"fn": "diagonal", "iface": "autograd"}, "qp.math.diagonal inside an autograd trace ignores / rejects the offset argument"),
+    ("C16", None, {"sig": "dyadic:mult2k"}, "DyadicMatrix.mult2k(k) does not multiply by 2**k (unused in the repository)"),
+    ("C16", None, {"sig": "zs2:sqrt-raises"}, "ZSqrtTwo.sqrt() raises ValueError for negative arguments instead of returning None (also crashes _solve_diophantine(ZSqrtTwo(-3, 0)))"),
+    ("C16", None, {"sig": "dyadic:eq-noncanonical:k<=0"}, "equal-valued DyadicMatrix objects compare unequal for k <= 0 (sqrt(2) factor only stripped while k > 0)"),
+    ("C45", None, {"sig": "indices-str"}, "Wires.indices('ab') iterates a string label character by character although str is documented as accepted"),
     ("C28", "kraus-channel", {"channel": "ThermalRelaxationError", "regime": "t2>t1,tg>4*t2"}, "ThermalRelaxationError Kraus operators are not trace preserving for T2 > T1 and tg >> T2 (stability epsilon dominates)"),
+    ("C28", "result-shape", {"batch1_csr_obs": True}, "expval(LinearCombination / SparseHamiltonian) with a broadcast parameter of batch size one loses the batch axis (math.squeeze in csr_dot_products; default.qubit has the same squeeze)"),
     ("C28", "kraus-complete", {"channel": "ThermalRelaxationError", "regime": "t2>t1,tg>4*t2"}, "ThermalRelaxationError Kraus operators are not trace preserving for T2 > T1 and tg >> T2 (stability epsilon dominates)"),
 ]
 
@@ -95,10 +106,11 @@ def main():
 
 
 EXTRA_KNOWN = []
-try:
-    from kf_extra import EXTRA_KNOWN  # noqa: F401
-except ImportError:
-    pass
+import glob  # noqa: E402
+
+for _f in sorted(glob.glob(os.path.join(ROOT, "tools", "kf_extra_*.json"))):
+    for _e in json.load(open(_f)):
+        EXTRA_KNOWN.append((_e["property"], _e["clause"], _e["match"], _e["what"]))
 
 if __name__ == "__main__":
     main()
